@@ -104,6 +104,12 @@ func (t *Term) subst(m map[string]*Term) *Term {
 		return t
 	}
 	if len(t.Args) == 0 {
+		if t.Snap != nil {
+			// the snapshot lives in the same frame as the term
+			if ns := t.Snap.subst(m); ns != t.Snap {
+				return &Term{Op: t.Op, S: t.S, Snap: ns}
+			}
+		}
 		return t
 	}
 	changed := false
